@@ -154,15 +154,26 @@ def run(ctx):
         except Exception as ex:
             ctx.violation(base % ("%s-raises" % decname), "%s with %s raised on arbitrary received words: %s" % (code.name, decname, str(ex)[:150]), rep)
             return None
-        best = coset_min_weights(hs_ref, n)
+        # reference distance to the nearest codeword: coset-leader weights when the redundancy is small, otherwise the
+        # codebook itself (small dimension); neither is feasible for a long high-redundancy, high-dimension code
+        if fec.rank(hs_ref) <= 16:
+            table = coset_min_weights(hs_ref, n)
+            best_of = lambda r_: table[fec.synd(r_, hs_ref)]          # noqa: E731
+        elif k <= 12:
+            book = [fec.comb(m_, gs) for m_ in range(1 << k)]
+            best_of = lambda r_: min(fec.wt(r_ ^ c_) for c_ in book)  # noqa: E731
+        else:
+            ctx.count("ml-clause-skipped-size")
+            return None
         ctx.count("ml-decodings", len(words))
         for r, g in zip(words, got):
             d = fec.wt(r ^ fec.comb(g, gs))
             if fec.synd(r, hs_ref):
                 ctx.nontriv((code.name, decname, "ml", r))
-            if d != best[fec.synd(r, hs_ref)]:
+            b_ = best_of(r)
+            if d != b_:
                 ctx.violation(base % ("%s-ml" % decname), "%s decoded by %s: received %s -> message %s whose codeword is at distance %d, the nearest codeword is at distance %d" % (
-                    code.name, decname, fec.int_to_bits(r, n), fec.int_to_bits(g, k), d, best[fec.synd(r, hs_ref)]),
+                    code.name, decname, fec.int_to_bits(r, n), fec.int_to_bits(g, k), d, b_),
                     dict(rep, decoder=decname, received=fec.int_to_bits(r, n)))
                 return None
         return words, got
@@ -172,7 +183,7 @@ def run(ctx):
     import resource as _res
     for _ci, code in enumerate(cat):
         _t0 = _t.time()
-        if _ci % 40 == 0:
+        if _ci % 40 == 0 or (not quick and 80 <= _ci <= 130):
             ctx.log("code %d/%d %s rss=%.1fGB" % (_ci, len(cat), code.name[:50], _res.getrusage(_res.RUSAGE_SELF).ru_maxrss / 1e6))
         enc = code.build()
         if enc is None:
